@@ -281,7 +281,7 @@ Create(n, trunc, fa) ==
                      ELSE IF m.cfg.no_open THEN [s |-> r.s, st |-> "OK", k |-> r.k, h |-> 0]
                      ELSE [s |-> NewHandle(r.s, r.k), st |-> "OK", k |-> r.k, h |-> r.s.next_handle]
          A0 == N0("create", res.st, fa)
-         A1 == IF res.st = "OK" THEN OpenH(Entry(A0, "create", res.s.dirent[n], res.k), "create", res.k, res.h) ELSE A0
+         A1 == IF res.st = "OK" THEN OpenH(Entry(A0, "create", res.s.dirent[n], res.k), "create", res.k, res.h, FALSE) ELSE A0
      IN Step(res.s, A1, [op |-> "create", p |-> 1, name |-> n, flags |-> IF trunc THEN 514 ELSE 2, fail_at |-> fa], res.k, res.h)
 
 Link(k, n, fa) ==
@@ -351,21 +351,24 @@ OpenOp(k, dir, fa) ==
   LET op == IF dir THEN "opendir" ELSE "open"
       no == IF dir THEN m.cfg.no_opendir ELSE m.cfg.no_open
       o == OpenInode(m, k, B(fa))
-      okType == k \in DOMAIN m.data => ((m.data[k].file = 1) = dir)
-      st == IF no THEN "ENOSYS" ELSE IF o.st # "OK" THEN o.st ELSE IF ~okType THEN (IF dir THEN "ENOTDIR" ELSE "EISDIR") ELSE "OK"
+      \* OPENDIR of a file: ENOTDIR. OPEN of a directory is issued read-only (hist flags 0) and succeeds: the handle can be
+      \* listed through (readdir records a cookie for it) and is released with RELEASE
+      okType == k \in DOMAIN m.data => (dir => m.data[k].file = 1)
+      st == IF no THEN "ENOSYS" ELSE IF o.st # "OK" THEN o.st ELSE IF ~okType THEN "ENOTDIR" ELSE "OK"
       s1 == IF st = "OK" THEN NewHandle(m, k) ELSE m
       h == IF st = "OK" THEN m.next_handle ELSE 0
-      A1 == IF st = "OK" THEN OpenH(N0(op, st, fa), op, k, h) ELSE N0(op, st, fa)
-  IN Step(s1, A1, [op |-> op, p |-> Id(seenn, k), flags |-> 2, fail_at |-> fa], 0, h)
+      A1 == IF st = "OK" THEN OpenH(N0(op, st, fa), op, k, h, m.data[k].file = 1) ELSE N0(op, st, fa)
+  IN Step(s1, A1, [op |-> op, p |-> Id(seenn, k), flags |-> IF ~dir /\ k \in DOMAIN m.data /\ m.data[k].file = 1 THEN 0 ELSE 2, fail_at |-> fa], 0, h)
 
-ReleaseOp(k, h, dir) ==
+\* fl: FUSE_RELEASE_FLUSH (1) / FLOCK_UNLOCK (2) -- ignored by release(), which allocates nothing: FailAt cannot hit it
+ReleaseOp(k, h, dir, fl, fa) ==
   LET op == IF dir THEN "releasedir" ELSE "release"
       no == IF dir THEN m.cfg.no_opendir ELSE m.cfg.no_open
       hit == h \in DOMAIN m.handles /\ m.handles[h].inode = k
       st == IF no THEN "ENOSYS" ELSE IF hit THEN "OK" ELSE "EBADF"
       \* do_release: the handle, then its cookie
       s1 == IF st = "OK" THEN [m EXCEPT !.handles = Del(@, h), !.cookies = IF h \in DOMAIN @ THEN Del(@, h) ELSE @] ELSE m
-  IN Step(s1, ReleaseH(N0(op, st, -1), op, k, h, st), [op |-> op, p |-> Id(seenn, k), h |-> Id(seenh, h)], 0, 0)
+  IN Step(s1, ReleaseH(N0(op, st, fa), op, k, h, st), [op |-> op, p |-> Id(seenn, k), h |-> Id(seenh, h), flags |-> fl, fail_at |-> fa], 0, 0)
 
 ReadOp(k, h, fa) ==
   LET hit == h \in DOMAIN m.handles /\ m.handles[h].inode = k
@@ -439,7 +442,8 @@ Next ==
           \/ \E n \in Names, fa \in Fails : Lookup(n, fa) \/ Create(n, m.cfg.seal, fa)
           \/ \E k \in Nums, h \in Hs, ext \in BOOLEAN : WriteOp(k, h, ext, -1)
           \/ \E k \in Nums, fa \in Fails : OpenOp(k, FALSE, fa) \/ OpenOp(k, TRUE, fa)
-          \/ \E k \in Nums, h \in Hs : ReleaseOp(k, h, FALSE) \/ ReleaseOp(k, h, TRUE) \/ \E fa \in Fails : ReadOp(k, h, fa)
+          \/ \E k \in Nums, h \in Hs : \E fl \in {0, 1}, fa \in {-1, 0} : ReleaseOp(k, h, FALSE, fl, fa) \/ ReleaseOp(k, h, TRUE, 0, fa)
+          \/ \E k \in Nums, h \in Hs, fa \in Fails : ReadOp(k, h, fa)
           \/ \E h \in Hs, fa \in Fails : ReaddirRoot(h, 1, TRUE, fa)
           \/ \E k \in Nums : ForgetOp(k, 1) \/ ForgetOp(k, 3)
           \/ \E fa \in Fails : DestroyOp(fa) \/ InitOp(fa)
